@@ -444,7 +444,59 @@ func init() {
 			if tier == core.Thorough {
 				n = 6000000
 			}
-			return []core.Section{{Name: "generated-values", N: n,
+			// one struct type, first with an unsupported value inside (the call must fail), then fully
+			// supported (every exported field must be there): nothing learnt about a type in a failed
+			// call may survive into a later one; also types that refer to themselves
+			reuse := core.Section{Name: "type-reuse-after-failure", N: n / 20,
+				Run: func(c *core.Ctx, i int) {
+					type node struct {
+						Label string
+						Any   any
+						Next  *node
+						Kids  []*node
+						Last  int
+					}
+					bad := []any{sharedChan, func() {}, complex(1, 1), [1]int{1}}[i%4]
+					city := "Ülm"
+					cases := []struct {
+						name        string
+						failing, ok any
+						fields      map[string]string // field -> expected text in the ok value
+					}{
+						{"c12User", c12User{Name: "n", Extra: bad}, c12User{Name: "n2", Age: 7, Extra: 1, Scores: map[string]float64{"m": 1.5}}, map[string]string{"name": "n2", "age": "7", "extra": "1", "scores.m": "1.5", "email": "", "address": ""}},
+						{"*c12User", &c12User{Extra: []any{1, bad}}, &c12User{Name: "p", Extra: "x", Address: &c12Address{City: city, Owner: &c12User{Name: "owner", Scores: map[string]float64{"k": 2.5}}}}, map[string]string{"name": "p", "extra": "x", "address.city": city, "address.owner.name": "owner", "address.owner.scores.k": "2.5", "address.geo.x": "0", "address.owner.age": "0"}},
+						{"node", node{Label: "a", Any: map[string]any{"k": bad}}, node{Label: "b", Any: 2, Next: &node{Label: "c", Last: 3, Kids: []*node{{Label: "d", Last: 4}}}, Last: 9}, map[string]string{"label": "b", "any": "2", "last": "9", "next.label": "c", "next.last": "3", "next.kids[0].label": "d", "next.kids[0].last": "4", "next.next": ""}},
+						{"[]node", []node{{Label: "a"}, {Any: bad}}, []node{{Label: "x", Last: 1}, {Label: "y", Last: 2, Next: &node{Last: 5}}}, map[string]string{"[0].label": "x", "[1].last": "2", "[1].next.last": "5", "[0].last": "1"}},
+					}
+					cs := cases[(i/4)%len(cases)]
+					order := i / 16 % 2 // also the other way round: a good call first, then the failing one, then good again
+					render := func(v any, path string) Outcome {
+						src := "\x01{{ v" + path + " }}\x02"
+						c.Input(map[string]any{"source": src, "type": cs.name})
+						return evalString(c, src, map[string]any{"v": v})
+					}
+					if order == 1 {
+						render(cs.ok, "")
+					}
+					if got := render(cs.failing, ""); !got.Failed() {
+						c.Violation("unsupported-accepted", fmt.Sprintf("a %s holding an unsupported value was accepted", cs.name), map[string]any{"type": cs.name})
+					}
+					c.Nontrivial(fmt.Sprint("reuse", cs.name, i%4, order))
+					for path, want := range cs.fields {
+						p := path
+						if !strings.HasPrefix(p, "[") {
+							p = "." + p
+						}
+						got := render(cs.ok, p)
+						if got.Panicked {
+							continue
+						}
+						if got.Err != nil || got.Out != "\x01"+want+"\x02" {
+							c.Violation("type-reuse:"+cs.name, fmt.Sprintf("after a failed call with a %s, v%s of a fully supported value gave %s, want %q", cs.name, p, got.Describe(), want), map[string]any{"type": cs.name, "path": p})
+						}
+					}
+				}}
+			return []core.Section{reuse, {Name: "generated-values", N: n,
 				Run: func(c *core.Ctx, i int) {
 					depth := 1 + i%4
 					// the same seed builds the value twice: one is rendered, one is the reference copy
